@@ -241,6 +241,47 @@ theorem processPkt_forward (cfg mac resolve now ing) (raw : Bytes) (eg : Nat)
   | other => simp [hp] at hf
   | ok h pm => simp only [hp] at hf; exact ⟨h, pm, rfl, hf⟩
 
+/-! ### no state between packets
+
+In the code a `scionPacketProcessor` is reused for every packet of its goroutine; `reset()` clears
+the per-packet fields (`effectiveXover`, `peering`, hop and info field, path) first. In the model
+this is by construction: `process` is a function of configuration, MAC, time, ingress link and
+packet, and the per-packet state is created by `stParse`. -/
+
+/-- a processor handling a sequence of packets: the model has nothing to carry over -/
+def runSeq (cfg : Cfg) (mac : Mac) (resolve : Cfg → Hd → ResolveOut)
+    (pkts : List (Nat × Ingress × Bytes)) : List (Disp × Bytes) :=
+  pkts.map fun p => processPkt cfg mac resolve p.1 p.2.1 p.2.2
+
+/-- **process_stateless.** The answer to a packet does not depend on the packets the same
+processor handled before it: after any two histories the packet gets the same answer, namely
+`processPkt` of that packet alone. (Tie: the engine's op stream reuses one real processor per
+configuration and contains deterministic two-packet sequences — a cross-over or peering packet
+followed by every within-segment link-type pair — compared line by line with this model.) -/
+theorem process_stateless (cfg : Cfg) (mac : Mac) (resolve : Cfg → Hd → ResolveOut)
+    (pre pre' : List (Nat × Ingress × Bytes)) (now : Nat) (ing : Ingress) (raw : Bytes) :
+    (runSeq cfg mac resolve (pre ++ [(now, ing, raw)])).getLast? =
+      some (processPkt cfg mac resolve now ing raw) ∧
+    (runSeq cfg mac resolve (pre ++ [(now, ing, raw)])).getLast? =
+      (runSeq cfg mac resolve (pre' ++ [(now, ing, raw)])).getLast? := by
+  simp [runSeq]
+
+/-- the per-packet flags start afresh with every packet: the cross-over flag is false and the
+peering flag is what `determinePeer` says about THIS packet -/
+theorem flags_fresh (h : Hd) (pm : Hdr) (raw : Bytes) (s : St) (e : stParse h pm raw = .ok s) :
+    s.effXover = false ∧ determinePeer pm s.inf = some s.peering :=
+  ⟨(stParse_ok e).eff, (stParse_ok e).peer⟩
+
+/-- T3: `processPkt` starts with `reset()`, and `reset()` clears both flags -/
+theorem reset_clears_flags :
+    Scion.Gen.Router1.processPktFirst =
+      "if err := p.reset(); err != nil { return errorDiscard(\"error\", err) }" ∧
+    "p.effectiveXover = false" ∈ Scion.Gen.Router1.resetAssigns ∧
+    "p.peering = false" ∈ Scion.Gen.Router1.resetAssigns ∧
+    "p.hopField = path.HopField{}" ∈ Scion.Gen.Router1.resetAssigns ∧
+    "p.infoField = path.InfoField{}" ∈ Scion.Gen.Router1.resetAssigns := by
+  refine ⟨rfl, ?_, ?_, ?_, ?_⟩ <;> decide
+
 /-! ### non-vacuity -/
 
 /-- child → child across a segment change is forwarded -/
